@@ -15,7 +15,7 @@ MANIFEST = {
             "byte (RFC 8613 Appendix C vectors included); every single-bit flip and truncation of sampled datagrams must be rejected "
             "where the RFC protects the bit (a test); helpers (option value, AAD, nonce, key derivation) are compared with M and S.",
     "note": "Not theorems: cryptographic strength / unforgeability ('every modification is rejected' is proved only as 'rejected iff "
-            "the recomputed tag differs'); nonce_eq_spec, nonce_injective, aad_injective/cbor_bstr_injective, option_value_eq_spec and the "
+            "the recomputed tag differs'); nonce_eq_spec, nonce_injective for Partial IVs of different lengths (nonce_injective_partial covers equal lengths), aad_injective/cbor_bstr_injective, option_value_eq_spec and the "
             "response half of unprotect_protect are covered by the differential runs only (statements in design/C14.md). GnuTLS's AES-CCM/"
             "HMAC are an oracle on the implementation side, cross-checked against S's own primitives on every case; S's primitives are "
             "tested against FIPS/RFC vectors. 'No handler runs' rests on coap_dispatch() returning when coap_oscore_decrypt_pdu() returns "
@@ -26,7 +26,7 @@ MANIFEST = {
 LEAN_MODULES = ["CoapVerif.Props.C14"]
 NAMESPACE = "Coap.C14"
 REQUIRED_THEOREMS = ["ccm_roundtrip", "tamper_detected_iff_tag_mismatch", "option_value_roundtrip", "aad_eq_spec",
-                     "split_merge_inverse", "unprotect_protect_partial"]
+                     "split_merge_inverse", "unprotect_protect_partial", "nonce_injective_partial"]
 RULE = ("exchanges (one request and 0-3 responses/notifications per line) between a client and a server OSCORE context set up "
         "from master secret / salt / ID context / ids 0..7 bytes: all request methods and response codes, inner/outer option "
         "mixes incl. Observe, Block, Proxy-Scheme, Uri-Host/Port, Hop-Limit, No-Response, unknown options, payload 0..1 KiB, "
